@@ -12,7 +12,9 @@ RULE = ("random acyclic component graphs (2-14 nodes quick, up to 40 thorough) b
         ">= 3 nodes, >= 1 edge and >= 2 nodes without a path between them (a tie-break exists); distinct by hash of "
         "the full case spec; plus, per shard, evaluations of the repository's OWN component graph (all shipped specs, parsers "
         "and combiners, ~2 600 components) against synthetic archives filled from the parsers' docstring samples with "
-        "content faults, under the same value-free monitors")
+        "content faults, under the same value-free monitors; plus, once per run, the repository's own test suite (quick: "
+        "the engine-heavy directories, thorough: all of it) as a workload under a pytest plugin that attaches the "
+        "value-free monitors to every dr.run_components call the tests make (test verdicts are not looked at)")
 ASSUMPTIONS = [
     "None is not used as a value a component body returns; pre-seeded values may be None",
     "the order the engine chooses is varied by allocation perturbation and by the PYTHONHASHSEED sweep of C04, not enumerated",
@@ -29,10 +31,40 @@ REACH = [
 ]
 PLAN = {
     "quick": {"shards": 8, "cases": 1500, "timeout_s": 600, "min_evaluations": 6000,
-              "min_counters": {"process_events": 18000, "attempt_events": 18000}},
+              "min_counters": {"process_events": 18000, "attempt_events": 18000, "suite_run_components_calls": 5000}},
     "thorough": {"shards": 16, "cases": 4000, "timeout_s": 3000, "min_evaluations": 30000,
-                 "min_counters": {"process_events": 100000}},
+                 "min_counters": {"process_events": 100000, "suite_run_components_calls": 7000}},
 }
+
+
+SUITE_QUICK = ["insights/tests/core", "insights/tests/specs", "insights/tests/plugins", "insights/tests/test_integration_support.py"]
+
+
+def directed(tier):
+    return [{"kind": "suite", "paths": SUITE_QUICK if tier == "quick" else []}]
+
+
+def run_suite(spec, ctx, prop):
+    """the repository's own tests as a workload: only what the monitors saw counts"""
+    import os
+    from vpmon import runner, suite
+    paths = [p_ for p_ in spec["paths"] if os.path.exists(os.path.join(runner.repo_root(), p_))]
+    if spec["paths"] and not paths:
+        ctx.count("suite_paths_missing")
+        return False
+    doc = suite.run_suite(runner.repo_root(), paths)
+    if "error" in doc:
+        ctx.count("suite_runs_without_monitor_output")
+        ctx.sets.setdefault("suite_errors", set()).add(doc["error"][-300:])
+        return False
+    ctx.count("suite_runs")
+    for k, v in doc["stats"].items():
+        ctx.count("suite_" + k, v)
+    ctx.count("suite_tests_collected", doc.get("tests_collected") or 0)
+    for pr, mech, wit in doc["violations"]:
+        if pr == prop:
+            ctx.violation(mech, dict(wit, workload="the repository's own test suite"))
+    return True
 
 
 def gen_case(rng, tier, idx):
@@ -42,7 +74,7 @@ def gen_case(rng, tier, idx):
 
 
 def nontrivial(spec):
-    if spec.get("kind") == "realgraph":
+    if spec.get("kind") in ("realgraph", "suite"):
         return True
     nodes = spec["graph"]["nodes"]
     n = len(nodes)
@@ -86,6 +118,8 @@ def run_realgraph(spec, ctx):
 def run_case(spec, ctx):
     if spec.get("kind") == "realgraph":
         return run_realgraph(spec, ctx)
+    if spec.get("kind") == "suite":
+        return run_suite(spec, ctx, ID)
     r = E.execute(spec)
     try:
         runs = [r]
